@@ -13,6 +13,7 @@ from stubs import cryptoshim
 
 BOUNDED = ('lfu', 'lru', 'mru', 'rr')
 PERSISTENT_BACKENDS = ('file', 'dir', 'sql')
+PERSISTENT_ALL = PERSISTENT_BACKENDS + ('sqlfile',)
 ARG_UNIVERSE = (1, 2, 3)
 ALGOS = ('no', 'inf') + BOUNDED
 WITNESS = (1, 1.0, True, '1', 2)          # equal-but-differently-typed arguments (and one unrelated value)
@@ -22,6 +23,22 @@ SPECIAL_RESULTS = (None, 0)               # results a sloppy truth test or a get
 
 class UserError(Exception):
     """raised by the wrapped function on the calls the symbolic predicate FR selects"""
+
+
+class Unstorable:
+    """concrete replay: a result neither dill nor json nor sqlite can encode"""
+
+    def __reduce_ex__(self, p):
+        raise TypeError('cannot serialize Unstorable')
+
+
+def _unencodable():
+    from stubs import posixfs
+    return posixfs.Unencodable()
+
+
+def is_unstorable(v):
+    return isinstance(v, Unstorable) or getattr(v, '__unencodable__', False)
 
 
 def warg(v):
@@ -76,12 +93,22 @@ class Hist:
         saved = _random.choice
         _random.choice = sym_choice
         undo2 = lambda: None
-        if self.cfg['backend'] in PERSISTENT_BACKENDS:
+        self.scratch = None
+        if self.cfg['backend'] in PERSISTENT_ALL:
             from harness import arch
             from stubs import sqlshim
             u_fs = arch.installer().install()
             self.shim, u_sql = sqlshim.install()
-            undo2 = lambda: (u_sql(), u_fs())
+            if self.cfg['backend'] == 'sqlfile':
+                import tempfile
+                self.scratch = tempfile.mkdtemp(prefix='ksym_sql_')
+
+            def undo2():
+                import shutil
+                u_sql()
+                u_fs()
+                if self.scratch:
+                    shutil.rmtree(self.scratch, ignore_errors=True)
 
         def undo():
             _random.choice = saved
@@ -99,6 +126,8 @@ class Hist:
         d = tempfile.mkdtemp(prefix='ksym_replay_')
         cwd = os.getcwd()
         shim, undo = sqlshim.install()   # only marshals the concrete stand-ins of atoms into sqlite values
+        self.shim = shim
+        self.scratch = d
         try:
             os.chdir(d)
             r = ReplayCtx(assignment).run(self.fn)
@@ -148,6 +177,8 @@ class Hist:
             return KA.dir_archive('memo', cached=True)
         if b == 'sql':
             return KA.sqltable_archive('sqlite:///:memory:?table=memo', cached=True)
+        if b == 'sqlfile':
+            return KA.sqltable_archive('sqlite:///%s/db.sqlite?table=memo' % self.scratch, cached=True)
         raise ValueError(b)
 
     def _decorate(self, ctx, f, cache, maxsize):
@@ -173,18 +204,27 @@ class Hist:
         canary = cfg.get('canary')
         algo = cfg['algo']
         evals = []
-        if cfg['backend'] in PERSISTENT_BACKENDS and not ctx.concrete():
+        if cfg['backend'] in PERSISTENT_ALL and not ctx.concrete():
             from harness import arch
+            import os
             arch.installer().fresh()
             self.shim.close_all()
+            if self.scratch:
+                for n in os.listdir(self.scratch):
+                    os.unlink(os.path.join(self.scratch, n))
         shape = cfg.get('shape', 'x')
         special, raises = cfg.get('special'), cfg.get('raises')
         fname = 'F' if shape == 'x' else 'F2'
 
+        unstorable = cfg.get('unstorable')
+        bad = {}
+
         def F(b):
             """the deterministic function under memoization: an uninterpreted function of the bound arguments
-            (optionally returning None / 0 for the arguments an uninterpreted tag selects)"""
+            (optionally returning None / 0 - or a value no archive can encode - for the arguments an uninterpreted tag selects)"""
             z = [warg(v) for v in b]
+            if unstorable and ctx.apply_pred(fname + 'U', z):
+                return bad.setdefault(tuple(z), Unstorable() if ctx.concrete() else _unencodable())
             if special:
                 t = ctx.apply_tag(fname + 'T', z, len(SPECIAL_RESULTS) + 1)
                 if t:
@@ -227,6 +267,7 @@ class Hist:
                                                                      'how': 'positional' if cfg.get('maxsize_positional') else 'keyword'})
             return
         st = _State(ctx, cfg, g, f, F, evals, maxsize, props, canary)
+        st.hist = self
         # optional pre-population through the archive + bulk load (C05)
         npre = cfg.get('preload', 0)
         if npre:
@@ -250,7 +291,7 @@ class Hist:
             else:
                 op = alphabet[ctx.choice(len(alphabet), 'op')] if mgmt else 'call'
             if op == 'call':
-                if cfg['backend'] in PERSISTENT_BACKENDS:
+                if cfg['backend'] in PERSISTENT_ALL:
                     x = ARG_UNIVERSE[ctx.choice(len(ARG_UNIVERSE), 'xi')]     # keys become file names / SQL parameters
                 elif cfg.get('args') == 'witness':
                     x = WITNESS[ctx.choice(len(WITNESS), 'wi')]
@@ -278,7 +319,7 @@ class _State:
         self.purge = cfg.get('purge', False) or self.algo == 'no'
         self.hit = self.miss = self.load = 0
         self.calls = 0
-        self.lossless = cfg['backend'] in ('cached_dict',) + PERSISTENT_BACKENDS
+        self.lossless = cfg['backend'] in ('cached_dict',) + PERSISTENT_ALL
         self.reps = []           # representative key per key class
         self.last_use = {}       # class id -> step
         self.count = {}          # class id -> uses since it entered memory
@@ -292,6 +333,11 @@ class _State:
         c = self.g.__cache__()
         mem = dict(c)
         a = c.archive
+        if self.cfg.get('fresh_reader') and a is not c and c.archived():
+            # what another process sees: a new handle (for sqlite a new connection) on the same store
+            from harness import arch as _arch
+            b = _arch.make({'file': 'file', 'dir': 'dir', 'sqlfile': 'sqlfile'}[self.cfg['backend']], 'memo', self.hist.scratch)
+            return mem, dict(b.items())
         arch = dict(a.items()) if (a is not c and c.archived()) else {}
         return mem, arch
 
@@ -346,6 +392,17 @@ class _State:
         except (PathPruned, Inconclusive):
             raise
         except Exception as e:
+            if self.cfg.get('unstorable') and (any(is_unstorable(v) for v in mem_b.values()) or is_unstorable(self.F(bound))):
+                # an archive refused a value it cannot encode: the call may fail, but nothing that was stored may get lost
+                mem_a, arch_a = self.snap()
+                for k, v in mem_b.items():
+                    if is_unstorable(v):
+                        continue          # a value no archive can hold has nowhere to go
+                    ok = ((k in mem_a) and (mem_a[k] == v)) or ((k in arch_a) and (arch_a[k] == v))
+                    ctx.check(ok, 'C07:refused-write-loses-nothing', {'kind': 'an entry was dropped from memory although its archive write failed'})
+                for k, v in arch_b.items():
+                    ctx.check((k in arch_a) and (arch_a[k] == v), 'C07:archive-monotone', {'kind': 'archived entry changed or removed'})
+                return False      # the history ends here: what a cache does after an archive refused a value is not specified
             ctx.check(False, '%s:no-exception' % P, {'kind': 'call raised', 'exc': type(e).__name__})
             return False
         n_ev = len(self.evals) - n_before
@@ -450,10 +507,10 @@ class _State:
             archived = c.archive is not c and c.archived()
             if archived:
                 for k, v in mem_b.items():
-                    if k not in mem_a:
+                    if k not in mem_a and not is_unstorable(v):
                         ok = (k in arch_a) and (arch_a[k] == v)
                         ctx.check(ok if not self.canary else Not(ok), 'C07:leaver-archived', {'kind': 'entry left memory without reaching the archive'})
-                if (q not in B) and (q not in A) and (kb not in arch_a):
+                if (q not in B) and (q not in A) and (kb not in arch_a) and not self.cfg.get('unstorable'):
                     ctx.check(False, 'C07:new-entry-archived', {'kind': 'fresh result neither in memory nor archive'})
                 for k, v in arch_b.items():
                     ok = (k in arch_a) and (arch_a[k] == v)
@@ -464,6 +521,8 @@ class _State:
                     vals_arch = list(arch_a.values())
                     for e, _k in self.ever:
                         v = self.F(e)
+                        if is_unstorable(v):
+                            continue
                         ctx.check((v in vals_mem) or (v in vals_arch), 'C07:retrievable', {'kind': 'computed result lost'})
         if 'C06' in props and self.tracked and not self.purge_active():
             lab = 'C06:%s' % self.algo
@@ -733,6 +792,11 @@ def plan(prop, tier):
                         for b in PERSISTENT_BACKENDS:
                             add(module=m, algo=a, purge=p, backend=b, keymap='strflat' if b == 'sql' else 'raw', N=3 if q else 4, maxsize=1 if q else 'sym')
                     add(module=m, algo=a, purge=p, backend='cached_dict', N=3 if q else 4, ops='mgmt')
+                    # what another process sees (new handle / new sqlite connection), and results an archive cannot encode
+                    if m == 'std' or not q:
+                        for b in ('file', 'dir', 'sqlfile'):
+                            add(module=m, algo=a, purge=p, backend=b, keymap='strflat' if b == 'sqlfile' else 'raw', N=3 if q else 4,
+                                maxsize=1 if q else 'sym', fresh_reader=True, unstorable=(b != 'sqlfile' or not q), scenario='outside')
         add_scenarios()
         add(module='std', algo='lru', backend='cached_dict', N=4, canary=True)
     return cfgs
